@@ -14,6 +14,7 @@ RULE = ('case = (client protocol, MAX_DATAPOINTS_PER_MESSAGE, queue of n uniquel
         'non-trivial = queue with >=2 datapoints; distinct = (protocol, batch size, queue)')
 RULE_MORE = (" Also: 30000-50000 datapoints per message, connection quality resets followed onto the new connection, the next daemon's flow control pausing its listener mid-segment, the relay closing in the middle of its stream.")
 RULE_MORE = RULE_MORE + ' Round 11: names with invisible characters in front, inside and at the end.'
+RULE_MORE = RULE_MORE + ' Round 12: the listening daemon has a MAX_DATAPOINTS_PER_MESSAGE of its own.'
 RULE = RULE + RULE_MORE
 EXHAUSTIVE = {'quick': False, 'thorough': False}
 EXHAUSTIVE_OVER = ''
